@@ -334,9 +334,14 @@ def head_repoint(ctx, rr):
     for a in ast.walk(loop):
         if isinstance(a, ast.Assign) and isinstance(a.value, ast.Constant) and a.value.value is False:
             flagvars |= set(names_in_target(a.targets[0]))
+    # ... or the truthiness / length of the batch itself, once it was materialised into a list (a generator is always truthy)
+    itn = loop.iter.id if isinstance(loop.iter, ast.Name) else None
+    solid = itn is not None and any(isinstance(a, ast.Assign) and any(isinstance(t, ast.Name) and t.id == itn for t in a.targets) and isinstance(a.value, ast.Call)
+                                    and isinstance(a.value.func, ast.Name) and a.value.func.id in ('list', 'tuple') and a.lineno < loop.lineno for a in P.own(u, ast.Assign))
+    by_batch = solid and any(f[0] == 'T' and f[1].replace(' ', '') in (itn, 'len(%s)' % itn, 'len(%s)>0' % itn) for f in facts)
     ok = (isinstance(sl.args[0], ast.Attribute) and ast.unparse(sl.args[0]) == '%s.block' % prior and not in_loop(P, u, sl)
           and isinstance(dirv, ast.Name) and dirv.id == 'out'
-          and any(f[0] == 'F' and f[1] in flagvars for f in facts))
+          and (any(f[0] == 'F' and f[1] in flagvars for f in facts) or by_batch))
     rr.ob(ctx.where(u, sl), 'the page head is moved to the last stub written, same direction, only for a non-empty batch', ok=ok)
     if not ok:
         fail(sl, 'the page is not repointed to the last stub of a non-empty batch in the requested direction')
